@@ -77,6 +77,16 @@ type ContractFile struct {
 	Lemmas    []*Lemma
 	Axioms    []*Axiom
 	PureIface []string // patterns of interface methods that are pure abstract fields
+	Guards    []*GuardDecl
+}
+
+// GuardDecl: fields of a struct type that may only be accessed while a mutex field of the same object is held.
+type GuardDecl struct {
+	Struct string
+	Mutex  string
+	Fields []string
+	Label  string
+	Pos    string
 }
 
 // ---------- expression AST ----------
@@ -479,8 +489,8 @@ func (p *parser) parsePrimary() (Expr, error) {
 // ---------- file parser ----------
 
 var clauseKW = map[string]bool{"requires": true, "ensures": true, "invariant": true, "assert": true, "let": true,
-	"modifies": true, "sets": true, "pure": true, "inline": true, "trusted": true, "assume": true, "var": true, "params": true}
-var blockKW = map[string]bool{"func": true, "interface": true, "spec": true, "ghost": true, "lemma": true, "axiom": true, "pureiface": true}
+	"modifies": true, "sets": true, "pure": true, "inline": true, "trusted": true, "assume": true, "var": true, "params": true, "readonly": true}
+var blockKW = map[string]bool{"func": true, "interface": true, "spec": true, "ghost": true, "lemma": true, "axiom": true, "pureiface": true, "guards": true, "abstraction": true, "implements": true}
 
 var labelRe = regexp.MustCompile(`^\[(~?)(C[0-9]+\.[A-Za-z0-9_\-]+)\]\s*`)
 
@@ -546,6 +556,24 @@ func parseContractFile(path string) (*ContractFile, error) {
 			cf.Contracts = append(cf.Contracts, cur)
 		case "pureiface":
 			cf.PureIface = append(cf.PureIface, fields[1:]...)
+		case "guards":
+			// guards [Cnn.label] Struct mutexField : F1, F2
+			r := rest
+			g := &GuardDecl{Pos: pos}
+			if m := labelRe.FindStringSubmatch(r); m != nil {
+				g.Label = m[2]
+				r = r[len(m[0]):]
+			}
+			parts := strings.SplitN(r, ":", 2)
+			hd := strings.Fields(parts[0])
+			if len(parts) != 2 || len(hd) != 2 {
+				return nil, fail(ln.n, "guards: expected 'Struct mutexField : F1, F2'")
+			}
+			g.Struct, g.Mutex = hd[0], hd[1]
+			for _, f := range strings.Split(parts[1], ",") {
+				g.Fields = append(g.Fields, strings.TrimSpace(f))
+			}
+			cf.Guards = append(cf.Guards, g)
 		case "ghost":
 			// ghost name : type
 			parts := strings.SplitN(rest, ":", 2)
@@ -614,6 +642,16 @@ func parseContractFile(path string) (*ContractFile, error) {
 				}
 				curLemma.Vars = append(curLemma.Vars, SpecParam{f[0], f[1]})
 			}
+		case "readonly":
+			if cur == nil {
+				return nil, fail(ln.n, "readonly outside func block")
+			}
+			cl := &Clause{Kind: "readonly", Text: ln.text, Pos: pos}
+			if m := labelRe.FindStringSubmatch(rest); m != nil {
+				cl.Label = m[2]
+				cl.Pending = m[1] == "~"
+			}
+			cur.Clauses = append(cur.Clauses, cl)
 		case "pure", "inline", "trusted":
 			if cur == nil {
 				return nil, fail(ln.n, "%s outside func block", kw)
